@@ -937,6 +937,7 @@ pub fn execute(sc: &Scenario, world: &World, budget: &[usize]) -> Run {
         }
     }
     drop(its);
+    crate::fdlimit::restore();
     let _ = std::env::set_current_dir("/");
     if let Some(e) = build_error {
         return Run {
